@@ -7,6 +7,7 @@ import (
 	"math"
 	"sort"
 	"strings"
+	_ "verif/h/duoc"
 	"verif/h/own"
 
 	"github.com/biogo/biogo/alphabet"
